@@ -4,6 +4,7 @@ import (
 	"encoding/json"
 	"fmt"
 	"io"
+	"os"
 	"regexp"
 	"runtime"
 	"sort"
@@ -764,6 +765,9 @@ func runInBubble(t *testing.T, sc *Scenario, cfg simrt.Config, hooks Hooks, res 
 				simfs.WriteFile(Abs(f.Path), f.Data)
 			}
 		}
+		if os.Getenv("VERIF_TRACE") != "" {
+			cfg.KeepTrace = true
+		}
 		simrt.Reset(cfg)
 		srv := langserver.CreateServer()
 		e.ch = newSimChan()
@@ -816,6 +820,10 @@ func runInBubble(t *testing.T, sc *Scenario, cfg simrt.Config, hooks Hooks, res 
 		res.SimMillis = time.Since(e.start).Milliseconds()
 		res.Tape = simrt.RecordedTape()
 		res.Stats = simrt.Snapshot()
+		if f := os.Getenv("VERIF_TRACE"); f != "" {
+			os.WriteFile(f, []byte(strings.Join(res.Stats.Trace, "\n")), 0644)
+			res.Stats.Trace = nil
+		}
 		res.FsFired = simfs.Fired()
 		res.FsCalls = simfs.Calls()
 		res.Net = simrt.NetStats()
